@@ -14,7 +14,7 @@
    SetSpliceCountdown, SetTransportPrivateData, SetAdaptationFieldExtension, Packet.SetAdaptationField) are
    covered by step_refines and therefore by the history theorem; nothing is _partial there. *)
 From Gots Require Import Base.Prelude Model.Pcr Model.AF Model.AFfn Spec.AFSpec Spec.AFParse Proofs.AFParseSound
-  Proofs.AFLists Proofs.PcrBytes Proofs.AFHistory Proofs.AFGetters Proofs.AFExamples Proofs.AFTotal Proofs.AFLastSet Proofs.AFFrame Model.AFPinned Proofs.AFPinnedRefuted.
+  Proofs.AFLists Proofs.PcrBytes Proofs.AFHistory Proofs.AFGetters Proofs.AFExamples Proofs.AFTotal Proofs.AFLastSet Proofs.AFFrame Proofs.AFAlgebra Model.AFPinned Proofs.AFPinnedRefuted.
 
 (* one call: Ok => the bytes are the serialisation of the updated logical value (same header, same payload,
    same adaptation_field_length); Err => the operation cannot be honoured (and the packet is untouched, see
@@ -149,6 +149,16 @@ Theorem C03_ext_last_set_partial : forall p l hdr pay h1 d h2 p2, repr p l hdr p
   AF.AdaptationFieldExtension (AF.run p (h1 ++ AF.OSetExt d :: h2)) = Ok (len d :: d).
 Proof. exact ext_last_set. Qed.
 Print Assumptions C03_ext_last_set_partial.
+
+(* repeating a presence toggle changes nothing (on the pinned tree SetHas...(true) twice zeroed the length of a populated
+   field: F5), and copying a packet's adaptation field onto itself changes nothing *)
+Theorem C03_toggle_idempotent : forall p l hdr pay o p1, repr p l hdr pay -> is_toggle o = true ->
+  AF.step p o = Ok p1 -> AF.step p1 o = Ok p1.
+Proof. exact toggle_idempotent. Qed.
+Print Assumptions C03_toggle_idempotent.
+Theorem C03_self_copy_identity : forall p l hdr pay, repr p l hdr pay -> AF.step p (AF.OSetAF p) = Ok p.
+Proof. exact self_copy_identity. Qed.
+Print Assumptions C03_self_copy_identity.
 
 (* SetPCR/SetOPCR write the ISO layout of the value (33-bit base, 6 reserved bits set, 9-bit extension) *)
 Theorem C03_pcr_layout : forall v, v < PcrMax -> Pcr.pcr6 v = pcr_enc v.
